@@ -46,6 +46,25 @@ impl TreeGen {
                 return PG::Neq(a, self.small(r, 1));
             }
         }
+        // multi-pair disequalities whose pairs share variables ([a, b] != [c, c], [x, y] != [y, 1]):
+        // re-running them after later equalities must treat the pairs as ONE conjunction
+        if r.chance(1, 6) {
+            let k = 2 + r.below(2);
+            let shared = self.var(r);
+            let mk = |r: &mut Rng, g: &TreeGen| -> Vec<T> {
+                (0..k).map(|_| match r.below(5) {
+                    0 | 1 => shared.clone(),
+                    2 | 3 => g.var(r),
+                    _ => T::Num(r.range(1, 2) as isize),
+                }).collect()
+            };
+            let (a, b) = (mk(r, self), mk(r, self));
+            return if self.compounds && k == 2 && r.chance(1, 3) { PG::Neq(T::Comp(0, a), T::Comp(0, b)) } else { PG::Neq(T::list(a), T::list(b)) };
+        }
+        // equalities that ground variables (so stored disequalities are re-run on conflicting/entailing bindings)
+        if !prev.is_empty() && r.chance(1, 5) {
+            return PG::Eq(self.var(r), T::Num(r.range(1, 2) as isize));
+        }
         let a = if r.chance(2, 3) { self.var(r) } else { self.small(r, 2) };
         let b = self.small(r, 2);
         let (a, b) = if r.chance(1, 2) { (a, b) } else { (b, a) };
